@@ -64,4 +64,101 @@ def C05.conserves (o : Order) (q : Nat) (r : MatchOut) : Bool :=
   | some u => u.vis + u.hid + r.consumed == o.vis + o.hid
   | none => true
 
+/-! ## C01 — aggregates equal the sums over the listed orders -/
+
+/-- what a reader must see: the three counters against the listing -/
+def C01.ok (vis hid cnt : Nat) (listing : List Order) : Bool :=
+  vis == sumVis listing && hid == sumHid listing && cnt == listing.length &&
+    decide (vis + hid < W)
+
+/-! ## C02 — every match fully accounted for; no order over-filled -/
+
+def fillsOf (id : Id) : List Tx → Nat
+  | [] => 0
+  | t :: ts => (if t.maker = id then t.qty else 0) + fillsOf id ts
+
+def lookup (id : Id) : List Order → Option Order
+  | [] => none
+  | o :: rest => if o.id = id then some o else lookup id rest
+
+def restTot (id : Id) (l : List Order) : Nat :=
+  match lookup id l with
+  | some o => o.vis + o.hid
+  | none => 0
+
+/-- transaction counters strictly increase and start at or after everything issued before -/
+def freshIds : Nat → List Nat → Bool
+  | _, [] => true
+  | g, k :: ks => decide (g ≤ k) && freshIds (k + 1) ks
+
+/-- what one `match_order` call was asked and what it answered, with the listing before and after -/
+structure MatchObs where
+  q      : Nat
+  taker  : Id
+  price  : Nat            -- the level's price
+  gprev  : Nat            -- number of transaction ids issued by the generator before the call
+  r      : MatchResult
+  pre    : List Order
+  post   : List Order
+  deriving Repr, Inhabited
+
+def C02.ok (o : MatchObs) : Bool :=
+  -- executed + remaining = requested; complete exactly when nothing remains
+  sumQty o.r.txs + o.r.remaining == o.q && (o.r.complete == (o.r.remaining == 0)) &&
+  o.r.taker == o.taker &&
+  -- every transaction: positive quantity, level price, given taker, resting maker, opposite side
+  o.r.txs.all (fun t => decide (t.qty > 0) && t.price == o.price && t.taker == o.taker &&
+    (match lookup t.maker o.pre with
+     | some m => t.takerSide == m.side.opposite
+     | none => false)) &&
+  -- transaction ids not issued before
+  freshIds o.gprev (o.r.txs.map (·.txid)) &&
+  -- the filled list names exactly the makers that traded and left the book in this call
+  o.r.filled.all (fun id => decide (fillsOf id o.r.txs > 0) && (lookup id o.post).isNone) &&
+  o.r.txs.all (fun t => (lookup t.maker o.post).isSome || o.r.filled.contains t.maker) &&
+  -- no maker trades more than it had; what it still rests with shrank by at least its fills
+  o.pre.all (fun m => decide (fillsOf m.id o.r.txs + restTot m.id o.post ≤ m.vis + m.hid))
+
+/-! ## C06 — a match that returns with quantity remaining leaves nothing displayed, and executes at
+    least min(requested, displayed at the start) -/
+
+def C06.ok (q : Nat) (r : MatchResult) (pre post : List Order) : Bool :=
+  (r.remaining == 0 || sumVis post == 0) && decide (min q (sumVis pre) ≤ sumQty r.txs)
+
+/-! ## C07 — cancel / move / amend do exactly what they report -/
+
+/-- all orders other than `id` are untouched -/
+def othersSame (id : Id) (pre post : List Order) : Bool :=
+  pre.all (fun o => o.id == id || lookup o.id post == some o) &&
+  post.all (fun o => o.id == id || lookup o.id pre == some o)
+
+/-- the order that must rest after a same-price amend of `old` to `n`: new displayed quantity for
+    Standard, PostOnly and Iceberg; identical for the other four kinds -/
+def amended (old : Order) (n : Nat) : Order :=
+  match old.kind with
+  | .standard | .postOnly | .iceberg _ => { old with vis := n }
+  | _ => old
+
+def C07.ok (price : Nat) (u : Update) (out : UpdOut) (pre post : List Order) : Bool :=
+  let removes (id : Id) : Bool :=
+    match lookup id pre with
+    | some o => out == .ok (some o) && (lookup id post).isNone && othersSame id pre post
+    | none => out == .ok none && othersSame id pre post && (lookup id post).isNone
+  let amends (id : Id) (n : Nat) : Bool :=
+    match lookup id pre with
+    | some o => out == .ok (some (amended o n)) && lookup id post == some (amended o n) && othersSame id pre post
+    | none => out == .ok none && othersSame id pre post && (lookup id post).isNone
+  match u with
+  | .cancel id => removes id
+  | .price id p => if p ≠ price then removes id else out == .errSamePrice && pre == post
+  | .quantity id n => amends id n
+  | .priceQty id p n => if p ≠ price then removes id else amends id n
+  | .replace id p n _ => if p ≠ price then removes id else amends id n
+
+/-! ## C15 — statistics agree with the events -/
+
+/-- `(added, removed, qty, value)` against the events counted by the observer -/
+def C15.ok (price : Nat) (s : Stats) (nAdds nRemoved sumExec : Nat) : Bool :=
+  s.added == nAdds && s.removed == nRemoved && s.qty == sumExec && s.value == price * sumExec
+
 end PLV
